@@ -999,7 +999,7 @@ def _dot_coo_ndarray_type(dt1, dt2):
         out = np.zeros(out_shape, dtype=dtr)
         didx1 = 0
 
-        while didx1 < len(data1):
+        while didx1 < len(data1) and out_shape[1] > 0:
             oidx1 = coords1[0, didx1]
             didx1_curr = didx1
 
@@ -1047,7 +1047,7 @@ def _dot_coo_ndarray_type_sparse(dt1, dt2):
         # coords1[1, :] = columns
 
         didx1 = 0
-        while didx1 < len(data1):
+        while didx1 < len(data1) and out_shape[1] > 0:
             current_row = coords1[0, didx1]
 
             cur_didx1 = didx1
